@@ -58,6 +58,8 @@ Next ==
         \/ Do("Allin", i, 0, OpAllin(gs, i, Ones(gs)))
         \/ Do("Pass", i, 0, OpPass(gs, i, Ones(gs)))
         \/ \E x \in Amts : Do("Bet", i, x, OpBet(gs, i, x, Ones(gs))) \/ Do("Raise", i, x, OpRaise(gs, i, x, Ones(gs)))
+  \* C07: the game is serialized and rebuilt between any two operations - a stuttering step on gs
+  \/ gs.ev # "" /\ Do("Rehydrate", -1, 0, OK(gs))
   \/ IF gs.round = "turn"
      THEN \E f \in [Seats(gs) -> 1..S] : (\A i \in Seats(gs) : gs.P[i].fold => f[i] = 1) /\ Do("Next", -1, 0, OpNext(gs, Pw(gs, f)))
      ELSE Do("Next", -1, 0, OpNext(gs, Ones(gs)))
